@@ -80,7 +80,7 @@ fn relations(sp: &Sprite, ase: &asefile::AsepriteFile) -> Result<u64, Violation>
 }
 
 pub fn run(ctx: &Ctx) -> i32 {
-    let n = ctx.tier.pick(5_000u64, 120_000u64);
+    let n = ctx.tier.pick(20_000u64, 300_000u64);
     let mut opts = ObsOpts::structure_only();
     opts.structure = false;
     opts.tilemaps = true;
